@@ -165,6 +165,41 @@ fn part1(shard: (usize, usize), tier: Tier, res: &mut ShardResult) -> Vec<(Strin
             }
         }
     }
+    // Long byte strings: lengths around every power of two from 32 KiB to 4 MiB (and 3 * 2^k), where chunked
+    // readers / writers change regime. Codec level only (an entry of that size needs blocks of several MiB).
+    {
+        let mut longs: Vec<usize> = vec![];
+        for k in 15..=22u32 {
+            for base in [1usize << k, 3usize << (k - 1)] {
+                if base <= (1 << 22) {
+                    longs.extend([base - 1, base, base + 1]);
+                }
+            }
+        }
+        for (i, len) in longs.into_iter().enumerate() {
+            if i % shard.1 != shard.0 {
+                continue;
+            }
+            for class in 1..3 {
+                let v = content(len, class);
+                code_roundtrip(&v, &format!("Vec<u8> of {len} bytes (class {class})"), &mut out, res);
+                code_roundtrip(&bytes::Bytes::from(v), &format!("Bytes of {len} bytes (class {class})"), &mut out, res);
+            }
+            let ascii: String = (0..len).map(|i| (b'a' + (i % 26) as u8) as char).collect();
+            code_roundtrip(&ascii, &format!("String of {len} bytes (ascii)"), &mut out, res);
+            // two-byte characters, shifted by one byte so that they straddle every even boundary
+            let mut multi = String::with_capacity(len + 2);
+            multi.push('x');
+            while multi.len() + 2 <= len {
+                multi.push('é');
+            }
+            code_roundtrip(&multi, &format!("String of {} bytes (two-byte characters)", multi.len()), &mut out, res);
+            res.add("long_strings", 1);
+            if !out.is_empty() {
+                return out;
+            }
+        }
+    }
     // Vec<u8> and Bytes of every length
     let max = 12288 + 2 * 4096;
     let step = if tier == Tier::Quick { 1 } else { 1 };
@@ -570,7 +605,7 @@ impl Prop for C08Prop {
     }
 
     fn rule(&self) -> String {
-        "Input enumeration on the real code. (1) Code::encode / decode / estimated_size directly: all values of u8, i8, u16, i16, bool; for u32..u128, i32..i128, usize, isize, f32, f64 all single-bit, all-ones-prefix, complemented-bit, MIN/MAX/+-1 and byte-pattern values; String incl. empty and multi-byte; Vec<u8> and Bytes of EVERY length 0..=20480 in three content classes (zeros, ramp, xorshift-incompressible); encoding into destination slices of every length 0..=needed+1 (selected values) must fail with BufferSizeLimit below `needed` and succeed from `needed`. (2) End to end through a real HybridCache on an FsDevice (write-on-insertion, 16 KiB blocks => per-entry maximum 12288 bytes): insert, wait, evict from memory, get from disk, close, reopen, get — for Vec<u8> of every length 0..=20480 that is even or within 2 bytes of a page boundary of the serialized entry (quick) / every length (thorough), under none / zstd / lz4, plus samples of u64, i32, u8, bool, f64, String, Bytes; the independent reader D checks the recorded key/value lengths and checksum against the bytes on the device, that the device bytes decode to the original, and that an entry exceeding the per-entry limit is absent as a whole. distinct = distinct (length chunk, compression).".into()
+        "Input enumeration on the real code. (1) Code::encode / decode / estimated_size directly: all values of u8, i8, u16, i16, bool; for u32..u128, i32..i128, usize, isize, f32, f64 all single-bit, all-ones-prefix, complemented-bit, MIN/MAX/+-1 and byte-pattern values; String incl. empty and multi-byte; Vec<u8> and Bytes of EVERY length 0..=20480 in three content classes (zeros, ramp, xorshift-incompressible), and Vec<u8> / Bytes / String (ascii and two-byte characters) of the lengths 2^k-1, 2^k, 2^k+1 and 3*2^(k-1)+-1 for 2^15..2^22 (32 KiB .. 4 MiB); encoding into destination slices of every length 0..=needed+1 (selected values) must fail with BufferSizeLimit below `needed` and succeed from `needed`. (2) End to end through a real HybridCache on an FsDevice (write-on-insertion, 16 KiB blocks => per-entry maximum 12288 bytes): insert, wait, evict from memory, get from disk, close, reopen, get — for Vec<u8> of every length 0..=20480 that is even or within 2 bytes of a page boundary of the serialized entry (quick) / every length (thorough), under none / zstd / lz4, plus samples of u64, i32, u8, bool, f64, String, Bytes; the independent reader D checks the recorded key/value lengths and checksum against the bytes on the device, that the device bytes decode to the original, and that an entry exceeding the per-entry limit is absent as a whole. distinct = distinct (length chunk, compression).".into()
     }
 
     fn assumptions(&self) -> Vec<String> {
